@@ -585,7 +585,7 @@ fn brace_getgroup(s: &str, depth: i32) -> Option<(Vec<String>, String)> {
                 let item = format!("{{{}}}", x);
                 result.push(item);
             }
-            return Some((result, ss));
+            return Some((result, sss));
         }
         if c == ',' {
             comma = true;
